@@ -334,6 +334,9 @@ func runC15(c *Check) {
 	c.ruleWriteOnlyWhatSerialized("R6")
 	c.rulePreallocateOnlyAsCapacity("R8")
 	c.rulePooledBufferNotStored("R9", 8)
+	c.ruleDecodeLoopsKeepEveryElement("R10", 10)
+	c.ruleSpentOutputsPerInput("R11")
+	c.Touch(c.P.Fn("storage.FetchTxState"))
 }
 
 // readerFunctions: module functions that take a stream to read from.
